@@ -386,7 +386,7 @@ def run(ctx):
     out.append(X.type_param_walker_rule(ctx.mir("default")["ts_rs_macros"], "C16"))
     out.append(T.empty_repetition_rule(ctx.syn, "C16"))
     out.append(T.export_test_params_rule(ctx.syn, "C16"))
-    out.append(T.where_clause_rule(ctx.syn, "C16"))
+    out.append(X.where_clause_rule(ctx.mir("default")["ts_rs_macros"], "C16"))
     out.append(T.template_hygiene_rule(ctx.syn, "C16"))
     out.append(T.crate_path_rule(ctx.syn, "C16"))
     out.append(T.passthrough_fields_rule(ctx.syn, "C16", rule="C16.R16"))
